@@ -86,6 +86,10 @@ class Module:
         # For most modules this will be `self`.
         self._elaborated: Optional[Module] = None
 
+        # The error which failed an elaboration of this module, if any.
+        # Elaboration re-writes modules in place; one that failed part-way is never elaborated again.
+        self._elab_error: Optional[Exception] = None
+
         # IOs as captured before bundle-flattening.
         # Bundle-valued ports are flattened into `ports` and removed from `bundles`, but need to be kept *somewhere* afterwards.
         # Set to `None` initially to indicate that it hasn't been set yet.
